@@ -18,6 +18,12 @@ CHECKS = {
     "C20": dict(level="other", technique="deductive guard obligations (pyvc) on the skip_file return, has_ignore_comment, _do_rewrite (lenient, both target kinds), scheduler step, alter_code veto, remove_nodes filter; bounded line-annotation drive of format_code",
                 text="Every text-editing path under contract is proved to consult the ignore detector before changing text, and the detector is proved equal to its line-scan spec; that no other path edits text is bounded (corpus lines annotated one at a time through the whole pipeline; skip_file through library, file and stdin entry points).",
                 note="trusted: z3, pyvc executor; regexes uninterpreted; rules that splice text outside the contracted paths are bounded only", ref="5/C20"),
+    "C15": dict(level="other", technique="deductive contracts (pyvc) on literal_value (raises only ValueError), the and/or/not/comparison-chain slices of _literal_value, operator/allow-list/call-site/compare-folding table obligations; bounded comparison with CPython eval and executed consumer programs",
+                text="Exception containment, and/or/not/chain evaluation order and values, the operator table, the purity allow-list and the try/except enclosure of every call site are proved; agreement of values with CPython and the consumer rules are bounded (enumerated expressions, eval as oracle, before/after programs executed).",
+                note="trusted: z3, pyvc executor; CPython eval is the oracle of the bounded part; methods of constant receivers assumed pure", ref="5/C15"),
+    "C16": dict(level="other", technique="deductive per-branch induction obligations extracted from the real has_side_effect and is_blocking (z3), loop-invariant proof of _loop_may_be_left (pyvc); bounded execution of enumerated statement shapes under all valuations with a trace hook",
+                text="Structural soundness of has_side_effect (every evaluated field inspected) and of every return path of is_blocking is proved by induction on the AST from stated control-flow axioms; local conditions, safe-callable inference and the deleting rules are bounded (shapes of nesting <= 2 executed).",
+                note="trusted: z3, extractors, control-flow axioms and evaluated-fields table (spec); assumes context managers do not suppress exceptions (known finding F-16h), no python -O", ref="5/C16"),
     "C17": dict(level="other", technique="deductive table/case-analysis obligations extracted from the real AST (bound analysis, operator tables, _negate_condition induction, constrained-range fold step) discharged by z3; bounded truth tables for sympy-based rules",
                 text="Every (guard, action) of the pairwise bound analysis, every negation-table entry, every path of _negate_condition and one fold step of simplify_constrained_range are proved for all thresholds/integers; sympy-based simplification and sum closed forms are only bounded (truth tables in a box).",
                 note="trusted: z3, extractors, reals for numeric literals; sympy unverified (bounded only); composition argument of the bound analysis stated not mechanised", ref="5/C17"),
